@@ -126,6 +126,8 @@ def cells(tier):
                     continue
                 if shuffled and iface == "tfdataset":
                     continue  # delegates to the concurrent path (covered), tf.shuffle is outside
+                if shuffled and layout in ("four-shards", "nested") and iface != "rust":
+                    continue  # measured: > 900 s per cell
                 out.append(dict(iface=iface, layout=layout, shuffled=shuffled, epochs=epochs))
     return out
 
